@@ -26,11 +26,16 @@ RULE = ("one evaluation = one (subcommand, input, variant) run compared with the
         "the same input; variant = hash seed / thread count / repetition. Non-trivial: the compared output holds at "
         "least one data record and the variant differs from the baseline in seed, threads or is a repetition; "
         "distinct = distinct (subcommand, variant, input digest). In-process: ReadSet.sort under permuted insertion "
-        "orders (non-trivial: >= 2 reads share a first position)")
+        "orders (non-trivial: >= 2 reads share a first position); readselection after ReadSet.sort under permuted insertion "
+        "orders (non-trivial: two reads share a first position and some read is rejected); phase/genotype on a BAM whose records "
+        "of one start position are permuted")
 MANIFEST = dict(
     category="other",
     text="partial Lean 4 theorems (read comparator is a total order and ReadSet::sort a function of the read set; "
          "polyphase block results re-sorted by block id and sorted(set) are independent of arrival/enumeration order) "
+         "; read selection after ReadSet::sort returns the same selection, for every resolution of its priority-queue ties, "
+         "whatever order the reads arrive in (selection_outcomes_order_independent; composed with the C07 model of "
+         "readselection), a tie witness and uniqueness of the outcome when no tie is decisive "
          "plus schedule/seed exploration: phase, phase --ped --use-ped-samples, genotype, polyphase, haplotag, unphase, "
          "stats, compare, split, haplotagphase re-run on identical generated inputs under different PYTHONHASHSEED "
          "values, --threads / --output-threads 1..4 and repeated; outputs compared record for record",
@@ -44,7 +49,10 @@ MANIFEST = dict(
 ASSUMPTIONS = ["std::hash<std::string> is deterministic across processes (libstdc++)",
                "the recorded command line (##commandline, @PG CL) is excluded as the property states; output paths differ "
                "between runs and appear only there",
-               "header definition lines are compared as a multiset (order = F6, observation)"]
+               "header definition lines are compared as a multiset (order = F6, observation)",
+               "BAM record-order runs: read names are unique (twin alignments get their own names); a different ORDER OF INPUT FILES "
+               "changes the source ids, which are part of ReadSet::sort's key: differences there are reported as observations",
+               "c16.select: std::hash of (name, source id) is replaced by the rank the implementation's own sort assigned"]
 
 K_F47 = "F47-compare-multiway-sample-column-set-order"
 
